@@ -76,7 +76,9 @@ namespace foonathan
 
                     auto remaining = std::size_t(end - cur_);
                     auto offset    = align_offset(cur_ + fence_size, alignment);
-                    if (fence_size + offset + size + fence_size > remaining)
+                    // written so that a huge size cannot wrap the sum around
+                    auto overhead = fence_size + offset + fence_size;
+                    if (overhead > remaining || size > remaining - overhead)
                         return nullptr;
 
                     return allocate_unchecked(size, offset, fence_size);
